@@ -428,6 +428,11 @@ impl Allocator for Arena {
 
   #[inline]
   unsafe fn dealloc(&self, offset: u32, size: u32) -> bool {
+    // the allocator state of a read-only ARENA lives in a read-only mapping: nothing can be given back
+    if self.ro {
+      return false;
+    }
+
     // first try to deallocate the memory back to the main memory.
     let header = self.header_mut();
     // if the offset + size is the current allocated size, then we can deallocate the memory back to the main memory.
